@@ -22,6 +22,13 @@ impl Keep {
         match c {
             CS::Null => std::ptr::null(),
             CS::Bad => BAD_UTF8.as_ptr() as *const c_char,
+            CS::BadIn(a, b) => {
+                let mut bytes = a.as_bytes().to_vec();
+                bytes.push(0xF0);
+                bytes.extend_from_slice(b.as_bytes());
+                self.0.push(CString::new(bytes).expect("C string arguments are NUL free"));
+                self.0.last().unwrap().as_ptr()
+            }
             CS::Ok(s) => {
                 self.0.push(CString::new(s.as_str()).expect("C string arguments are NUL free"));
                 self.0.last().unwrap().as_ptr()
